@@ -589,7 +589,9 @@ func (g *gen) structLit(sd *structDef, d int) string {
 }
 
 func (g *gen) structExpr(t *typ, d int) string {
-	if g.chance(60) {
+	// known finding struct-alias:store-into-collection: a struct VARIABLE stored into a slice (literal,
+	// append) is not copied; while it is listed, collection elements are written as struct literals
+	if g.chance(60) && !(g.inCollection > 0 && g.avoided("struct-alias:store-into-collection")) {
 		vs := g.visible(func(v *vr) bool { return sameType(v.t, t) })
 		if len(vs) > 0 {
 			v := vs[g.pick(len(vs))]
@@ -603,9 +605,11 @@ func (g *gen) structExpr(t *typ, d int) string {
 func (g *gen) sliceLit(t *typ, n int) string {
 	g.feat("slice-literal")
 	var parts []string
+	g.inCollection++
 	for i := 0; i < n; i++ {
 		parts = append(parts, g.expr(t.elem, 1))
 	}
+	g.inCollection--
 	return "[]" + t.elem.name() + "{" + strings.Join(parts, ", ") + "}"
 }
 
